@@ -1274,7 +1274,11 @@ impl RepDefUnraveler {
         // This is the highest def level that is still visible.  Once we hit a list then
         // we stop looking because any null / empty list (or list masked by a higher level
         // null) will not be visible
-        let mut max_level = null_level.max(empty_level);
+        //
+        // Note: an all-valid list has no level of its own (null_level = empty_level = 0) but the
+        // levels up to `valid_level` (null items inside the list) are still visible here, a list
+        // that starts with a null item is a valid list and not an invisible entry.
+        let mut max_level = null_level.max(empty_level).max(valid_level);
         // Anything higher than this (but less than max_level) is a null struct masking our
         // list.  We will materialize this is a null list.
         let upper_null = max_level;
